@@ -195,11 +195,17 @@ var affines = [][6]float64{
 	// an integer translation far from the origin (the last map; exact, so the
 	// area must stay exact; products of two coordinates exceed 2^53)
 	{1, 0, 0, 1, 1000000007, 123456789},
+	// an exact scaling by 2^-30: rings of 1e-8, areas of 1e-17 (far below any
+	// absolute "degenerate" threshold); every tolerance is relative to the scale
+	{math.Ldexp(1, -30), 0, 0, math.Ldexp(1, -30), 0, 0},
 }
 
 // farTranslation is the index (1-based) of the translation map: only areas are
 // compared under it (the centroid sums lose digits legitimately there).
-var farTranslation = len(affines)
+var farTranslation = len(affines) - 1
+
+// tinyScale is the index (1-based) of the exact scaling by 2^-30.
+var tinyScale = len(affines)
 
 func affPt(k int, x, y float64) (float64, float64) {
 	if k == 0 {
@@ -398,6 +404,18 @@ func judge(ps []poly, sp [][]spell, asMulti bool, aff int) {
 			viol(kind+"|"+sym, det)
 		}
 	}
+	unit := 1.0
+	if aff == tinyScale {
+		unit = math.Ldexp(1, -30)
+	}
+	// (shadows the package-level close: lengths - the centroid calls pass 2000 -
+	// are relative to the scale, areas to its square)
+	close := func(a, b, scale float64) bool {
+		if scale == 2000 {
+			return math.Abs(a-b) <= 1e-9*2000*unit
+		}
+		return math.Abs(a-b) <= 1e-9*math.Max(unit*unit, scale)
+	}
 	var got float64
 	if p := try(func() { got = pg.Area() }); p != "" {
 		viol(kind+".Area|panic", p)
@@ -416,7 +434,7 @@ func judge(ps []poly, sp [][]spell, asMulti bool, aff int) {
 	if allClosed && aff != farTranslation {
 		b := pg.Bounds()
 		inBox := func(c geom.Point) bool {
-			return c.X >= b.Min.X-1e-9 && c.X <= b.Max.X+1e-9 && c.Y >= b.Min.Y-1e-9 && c.Y <= b.Max.Y+1e-9
+			return c.X >= b.Min.X-1e-9*unit && c.X <= b.Max.X+1e-9*unit && c.Y >= b.Min.Y-1e-9*unit && c.Y <= b.Max.Y+1e-9*unit
 		}
 		if asMulti {
 			var c geom.Point
@@ -544,7 +562,7 @@ func main() {
 		return
 	}
 	rep = report.New("C03", tier, "model_checking")
-	rep.Rule = "E1: catalogue of valid polygons on a 12x12 integer grid (7 shells x all valid subsets of <=2 disjoint holes out of 7) under the FULL orbit of per-ring reversal x start rotation x closed/unclosed spelling (polygons), multi-polygons of 1-3 disjoint members with every subset of <=2(3) rings varied over their full orbit plus whole-geometry reversal; Area for every spelling, Polygon.Centroid/op.Centroid/op.Area on alternately wound spellings, MultiPolygon.Centroid on every closed spelling; all line strings of <=4 points over {0..2}^2 x 49 half-integer query points for Length/Distance/op.Length; lines over five far-apart points x query points 1e-6..1e-1 beside their segments; Point.Buffer for radius {0,.5,1,1e6} x segments 3..16 x 3 centres. every fifth spelling again under 3 affine maps with non-representable coefficients and under the integer translation by (1000000007, 123456789) (areas only) (area scales by |det|, the centroid maps affinely; relative tolerance 1e-9). A 64-gon and a 100-gon with a 33-gon hole under their full orbits. The full orbit of every fifth polygon again on one value rewritten in place (history), and every unclosed / every 8th spelling also cut from one flat vertex buffer (layout). Oracle: exact integer shoelace / centroid sums, exact squared distances. Non-trivial = spellings that are not the canonical alternately wound closed one."
+	rep.Rule = "E1: catalogue of valid polygons on a 12x12 integer grid (7 shells x all valid subsets of <=2 disjoint holes out of 7) under the FULL orbit of per-ring reversal x start rotation x closed/unclosed spelling (polygons), multi-polygons of 1-3 disjoint members with every subset of <=2(3) rings varied over their full orbit plus whole-geometry reversal; Area for every spelling, Polygon.Centroid/op.Centroid/op.Area on alternately wound spellings, MultiPolygon.Centroid on every closed spelling; all line strings of <=4 points over {0..2}^2 x 49 half-integer query points for Length/Distance/op.Length; lines over five far-apart points x query points 1e-6..1e-1 beside their segments; Point.Buffer for radius {0,.5,1,1e6} x segments 3..16, 64..65537 x 3 centres. every fifth spelling again under 3 affine maps with non-representable coefficients under the integer translation by (1000000007, 123456789) (areas only) and under the exact scaling by 2^-30 (tolerances relative to the scale) (area scales by |det|, the centroid maps affinely; relative tolerance 1e-9). A 64-gon and a 100-gon with a 33-gon hole under their full orbits. The full orbit of every fifth polygon again on one value rewritten in place (history), and every unclosed / every 8th spelling also cut from one flat vertex buffer (layout). Oracle: exact integer shoelace / centroid sums, exact squared distances. Non-trivial = spellings that are not the canonical alternately wound closed one."
 	cat := catalogue()
 	rep.Set("catalogue_polygons", len(cat))
 	maxVary := 2
@@ -756,7 +774,11 @@ func main() {
 	// buffers
 	for _, c := range []geom.Point{{X: 0, Y: 0}, {X: 3.25, Y: -7.5}, {X: 1e6, Y: 1e-3}} {
 		for _, rad := range []float64{0, 0.5, 1, 1e6} {
+			segs := []int{64, 100, 360, 720, 721, 1000, 1024, 4096, 65537}
 			for seg := 3; seg <= 16; seg++ {
+				segs = append(segs, seg)
+			}
+			for _, seg := range segs {
 				nEval++
 				var pg geom.Polygon
 				if p := try(func() { pg = c.Buffer(rad, seg) }); p != "" {
